@@ -265,12 +265,13 @@ var ladders = []ladder{
 func ladderSizes(thorough bool) []int {
 	ns := []int{1, 2, 3, 4, 8, 16, 32, 64, 99, 100, 101, 128, 256, 512, 1000, 1024, 2048, 4096}
 	if thorough {
-		ns = append(ns, 8192, 10000, 16384, 32768, 65536, 99999, 100000, 100001, 131072, 200000)
-	} else {
-		ns = append(ns, 10000, 30000)
+		ns = append(ns, 8192, 10000, 16384, 30000, 65536, 99999, 100000, 100001, 131072, 200000)
 	}
 	return ns
 }
+
+// sources above this size are not generated (a transaction cannot carry them)
+const maxSrcBytes = 1 << 20
 
 // ---------------------------------------------------------------------------------------------
 // (c) huge constants
@@ -457,6 +458,15 @@ var resourceBodies = []string{
 	"a := []int{1, 2, 3}\ni := 5\nprintln(a[:i])",
 	"a := [3]int{}\np := &a\np = nil\nprintln(p[1])",
 	"s := \"abc\"\ni := 10\nprintln(s[i])",
+	"a := [3]int{1, 2, 3}\ni := 5\nprintln(a[i])",
+	"a := [3]int{1, 2, 3}\ni := -1\nprintln(a[i])",
+	"var p *[3]int\nprintln(len(p[0:2]))",
+	"var p *[3]int\nfor i, v := range p {\n\tprintln(i, v)\n}",
+	"var p *struct{ a [3]int }\nprintln(p.a[1])",
+	"var m map[string][]int\nm[\"a\"][0] = 1",
+	"a := []int{1, 2, 3}\ni, j := 2, 1\nprintln(len(a[i:j]))",
+	"a := make([]int, 2, 4)\ni := 5\nprintln(len(a[:i]))",
+	"s := \"abc\"\ni, j := 2, 1\nprintln(s[i:j])",
 	"x := uint(1) << 70\nprintln(x)",
 	"var s uint = 1 << 63\nprintln(1 << s)",
 	"n := -1\nprintln(1 << n)",
@@ -515,6 +525,10 @@ func menuCases() []Case {
 			continue
 		}
 		cs = append(cs, Case{ID: fmt.Sprintf("resource/%02d:%s", i, oneLine(b)), Kind: kindRun, Src: mainWrap("", b), Gas: 50_000_000})
+		if strings.Contains(b, "append(") || strings.Contains(b, "make(") || strings.Contains(b, "s += s") || strings.Contains(b, "1 << 2") || strings.Contains(b, "1 << 3") || strings.Contains(b, "m[i] = i") {
+			// allocation-heavy: also with the block-maximum gas, so that the allocation limit (not gas) is the bound
+			cs = append(cs, Case{ID: fmt.Sprintf("resource-maxgas/%02d:%s", i, oneLine(b)), Kind: kindRun, Src: mainWrap("", b), Gas: 3_000_000_000})
+		}
 		// the same body in a package-level initialiser of a realm (runs at AddPackage time)
 		cs = append(cs, Case{ID: fmt.Sprintf("resource-init/%02d:%s", i, oneLine(b)), Kind: kindAddPkg, Src: "package pkg\n\nfunc main() {\n" + b + "\n}\n\nfunc init() { main() }\n", Gas: 50_000_000})
 	}
@@ -605,30 +619,36 @@ func tokenize(src string) []tok {
 	return ts
 }
 
-func mutationCases() []Case {
-	var cs []Case
+func mutationFamily() *lazyFamily {
+	lf := &lazyFamily{name: "mutations"}
+	const gas = 20_000_000
 	for si, src := range seeds {
+		src := src
 		ts := tokenize(src)
-		cs = append(cs, Case{ID: fmt.Sprintf("mut/seed%02d/identity", si), Kind: kindRun, Src: src, Gas: 20_000_000})
+		lf.add(fmt.Sprintf("mut/seed%02d/identity", si), func() Case { return Case{Kind: kindRun, Src: src, Gas: gas} })
 		for ti, t := range ts {
 			if ti < 2 { // keep `package main`
 				continue
 			}
-			del := src[:t.off] + src[t.end:]
-			cs = append(cs, Case{ID: fmt.Sprintf("mut/seed%02d/del[%d:%s]", si, ti, t.lit), Kind: kindRun, Src: del, Gas: 20_000_000})
+			t := t
+			lf.add(fmt.Sprintf("mut/seed%02d/del[%d:%s]", si, ti, t.lit), func() Case {
+				return Case{Kind: kindRun, Src: src[:t.off] + src[t.end:], Gas: gas}
+			})
 			for _, a := range alphabet {
 				if a == t.lit {
 					continue
 				}
-				sub := src[:t.off] + a + src[t.end:]
-				cs = append(cs, Case{ID: fmt.Sprintf("mut/seed%02d/sub[%d:%s->%s]", si, ti, t.lit, a), Kind: kindRun, Src: sub, Gas: 20_000_000})
+				a := a
+				lf.add(fmt.Sprintf("mut/seed%02d/sub[%d:%s->%s]", si, ti, t.lit, a), func() Case {
+					return Case{Kind: kindRun, Src: src[:t.off] + a + src[t.end:], Gas: gas}
+				})
 			}
-			// duplicate the token
-			dup := src[:t.end] + " " + t.lit + src[t.end:]
-			cs = append(cs, Case{ID: fmt.Sprintf("mut/seed%02d/dup[%d:%s]", si, ti, t.lit), Kind: kindRun, Src: dup, Gas: 20_000_000})
+			lf.add(fmt.Sprintf("mut/seed%02d/dup[%d:%s]", si, ti, t.lit), func() Case {
+				return Case{Kind: kindRun, Src: src[:t.end] + " " + t.lit + src[t.end:], Gas: gas}
+			})
 		}
 	}
-	return cs
+	return lf
 }
 
 // ---------------------------------------------------------------------------------------------
@@ -654,6 +674,9 @@ func newGen(thorough bool) *gen {
 	for _, ld := range ladders {
 		for _, n := range ladderSizes(thorough) {
 			ld, n := ld, n
+			if n > 4096 && len(ld.mk(64))/64*n > maxSrcBytes {
+				continue
+			}
 			lf.add(fmt.Sprintf("ladder/%s/%d", ld.name, n), func() Case {
 				return Case{Kind: kindRun, Src: ld.mk(n), Gas: 3_000_000_000}
 			})
@@ -662,6 +685,6 @@ func newGen(thorough bool) *gen {
 	g.fams = append(g.fams, lf)
 	g.fams = append(g.fams, &listFamily{name: "consts", cases: constCases(thorough)})
 	g.fams = append(g.fams, &listFamily{name: "menu", cases: menuCases()})
-	g.fams = append(g.fams, &listFamily{name: "mutations", cases: mutationCases()})
+	g.fams = append(g.fams, mutationFamily())
 	return g
 }
